@@ -541,3 +541,202 @@ Example C11_history_nonvacuous :
 Proof.
   split; [reflexivity|]. split; [apply released_after_false|]. split; vm_compute; reflexivity.
 Qed.
+
+(* ================================================================== *)
+(* C11 at non-commutative value types (static_matrix blocks under MPI).
+   amgcl instantiates mpi::distributed_matrix with static_matrix<T,b,b> values, whose product does not commute:
+   there the ORDER of the operands of every value product is part of the meaning of "the distributed operation
+   equals the serial one".  The theorems of Section Ring above assume a commutative ring; here they are proved
+   for every [ncring_theory S] (NcRing.v: all ring laws EXCEPT commutativity of the product), with the operand order of the
+   models (= of the C++) kept, and closed at [BlockS QcS b] = static_matrix<Q,b,b> for every block size b.
+   Proofs: DistBlock.v (mul / residual), DistBlockP.v (product), DistBlockT.v (transpose, witnesses). *)
+From Amgcl Require Import NcRing NcKernels BlockInst NcRingBlock BlockMatOpsProofs DistBlock DistBlockP DistBlockT.
+Local Open Scope S_scope.
+
+Section NcRingDist.
+Variable S : Scalar.
+Hypothesis Hnc : ncring_theory S.
+Hypothesis Seqb : seqb_spec S.
+
+(* mul: the per-rank results concatenate to the serial kernel, and entry i is
+   alpha * (sum_j a_ij * x_j) + beta * y_i  -- the matrix entry is the LEFT factor, local and ghost columns alike *)
+Theorem C11_nc_spmv_every_partition (A : crs S) (rparts cparts : list nat) alpha (x : vec S) beta (y : vec S) :
+  length rparts = length cparts -> psum rparts = nrows A -> psum cparts = ncols A ->
+  wf A = true -> length y = nrows A ->
+  concat (dist_spmv alpha (split A rparts cparts) (chunks cparts x) beta (chunks rparts y))
+  = spmv alpha A x beta y /\
+  forall i, i < nrows A ->
+    vget (concat (dist_spmv alpha (split A rparts cparts) (chunks cparts x) beta (chunks rparts y))) i
+    = alpha * sumn (fun j => mget A i j * vget x j) (ncols A) + beta * vget y i.
+Proof.
+  intros H1 H2 H3 H4 H5. split.
+  - exact (nc_dist_spmv_assembled Hnc Seqb A rparts cparts H1 H2 H3 H4 alpha x beta y H5).
+  - intros i Hi. exact (nc_dist_spmv_entries Hnc Seqb A rparts cparts H1 H2 H3 H4 alpha x beta y i H5 Hi).
+Qed.
+
+Theorem C11_nc_residual_every_partition (A : crs S) (rparts cparts : list nat) (f x res : vec S) :
+  length rparts = length cparts -> psum rparts = nrows A -> psum cparts = ncols A ->
+  wf A = true -> length f = nrows A -> length res = nrows A ->
+  concat (dist_residual (chunks rparts f) (split A rparts cparts) (chunks cparts x) (chunks rparts res))
+  = residual f A x res /\
+  forall i, i < nrows A ->
+    vget (concat (dist_residual (chunks rparts f) (split A rparts cparts) (chunks cparts x) (chunks rparts res))) i
+    = vget f i - sumn (fun j => mget A i j * vget x j) (ncols A).
+Proof.
+  intros H1 H2 H3 H4 H5 H6. split.
+  - exact (nc_dist_residual_assembled Hnc Seqb A rparts cparts H1 H2 H3 H4 f x res H5 H6).
+  - intros i Hi. exact (nc_dist_residual_entries Hnc Seqb A rparts cparts H1 H2 H3 H4 f x res i H5 H6 Hi).
+Qed.
+
+(* mpi::product: (A B)_ij = sum_k a_ik * b_kj IN THAT ORDER, for every compatible row / inner / column partition,
+   whether a_ik is a local or a remote entry of its rank and whether row k of B is local or came through
+   remote_rows *)
+Theorem C11_nc_product_every_partition (A B : crs S) (rpA cpA cpB : list nat) :
+  length rpA = length cpA -> length cpA = length cpB -> psum rpA = nrows A -> psum cpA = nrows B ->
+  wf A = true ->
+  let C := assemble (dist_product (split A rpA cpA) (split B cpA cpB)) in
+  ncols C = psum cpB /\
+  length (rows C) = nrows A /\
+  (forall i j, mget C i j = mget (spgemm_saad A B false) i j) /\
+  (forall i j, i < nrows A -> mget C i j = sumn (fun k => mget A i k * mget B k j) (ncols A)).
+Proof.
+  intros H1 H2 H3 H4 Hwf. split; [|split; [|split]].
+  - exact (proj1 (nc_dist_product_assembled Hnc A B rpA cpA cpB H1 H2 H3 H4)).
+  - exact (nc_dist_product_rows Hnc A B rpA cpA cpB H1 H2 H3 H4).
+  - exact (nc_dist_product_dense Hnc A B rpA cpA cpB H1 H2 H3 H4).
+  - intros i j Hi. exact (nc_dist_product_entries Hnc A B rpA cpA cpB H1 H2 H3 H4 i j Hwf Hi).
+Qed.
+
+(* mpi::transpose with an ADDITIVE adjoint: T_ji = adj(a_ij) for every partition *)
+Hypothesis sadj_add : forall a b : S, sadj (a + b) = sadj a + sadj b.
+Hypothesis sadj_0 : sadj (@s0 S) = s0.
+
+Theorem C11_nc_transpose_every_partition (A : crs S) (rparts cparts : list nat) :
+  length rparts = length cparts -> psum rparts = nrows A -> psum cparts = ncols A ->
+  let T := assemble (dist_transpose (split A rparts cparts) rparts) in
+  ncols T = nrows A /\
+  forall i j, j < ncols A -> mget T j i = sadj (mget A i j).
+Proof. exact (nc_dist_transpose_dense Hnc sadj_add sadj_0 A rparts cparts). Qed.
+
+(* adjoint an ANTI-automorphism (conjugate transpose of a block): the distributed transpose of the product is,
+   entry by entry, the distributed product of the transposes in REVERSED order, (A B)^H = B^H A^H, for every
+   compatible triple of partitions (empty ranks included) *)
+Hypothesis sadj_mul : forall a b : S, sadj (a * b) = sadj b * sadj a.
+
+Theorem C11_nc_transpose_of_product_every_partition (A B : crs S) (rpA cpA cpB : list nat) i j :
+  length rpA = length cpA -> length cpA = length cpB ->
+  psum rpA = nrows A -> psum cpA = nrows B -> nrows B = ncols A -> psum cpB = ncols B ->
+  wf A = true -> i < nrows A -> j < ncols B ->
+  mget (assemble (dist_transpose (split (spgemm_saad A B false) rpA cpB) rpA)) j i
+  = mget (assemble (dist_product (split (transpose B) cpB cpA) (split (transpose A) cpA rpA))) j i /\
+  mget (assemble (dist_transpose (split (spgemm_saad A B false) rpA cpB) rpA)) j i
+  = sumn (fun k => sadj (mget B k j) * sadj (mget A i k)) (ncols A).
+Proof. exact (nc_dist_transpose_of_product Hnc sadj_add sadj_0 sadj_mul A B rpA cpA cpB i j). Qed.
+End NcRingDist.
+Print Assumptions C11_nc_spmv_every_partition.
+Print Assumptions C11_nc_residual_every_partition.
+Print Assumptions C11_nc_product_every_partition.
+Print Assumptions C11_nc_transpose_every_partition.
+Print Assumptions C11_nc_transpose_of_product_every_partition.
+
+(* closed at static_matrix<Q,b,b> for EVERY block size b: no hypotheses left *)
+Theorem C11_nc_spmv_every_partition_BlockQc (b : nat) (A : crs (BlockS QcS b)) (rparts cparts : list nat)
+  alpha (x : vec (BlockS QcS b)) beta (y : vec (BlockS QcS b)) :
+  length rparts = length cparts -> psum rparts = nrows A -> psum cparts = ncols A ->
+  wf A = true -> length y = nrows A ->
+  concat (dist_spmv alpha (split A rparts cparts) (chunks cparts x) beta (chunks rparts y))
+  = spmv alpha A x beta y /\
+  forall i, i < nrows A ->
+    vget (concat (dist_spmv alpha (split A rparts cparts) (chunks cparts x) beta (chunks rparts y))) i
+    = alpha * sumn (fun j => mget A i j * vget x j) (ncols A) + beta * vget y i.
+Proof.
+  exact (C11_nc_spmv_every_partition (BlockS QcS b) (BlockS_ncring QcS b QcS_ring) (BlockS_eqb QcS b QcS_eqb)
+           A rparts cparts alpha x beta y).
+Qed.
+Print Assumptions C11_nc_spmv_every_partition_BlockQc.
+
+Theorem C11_nc_residual_every_partition_BlockQc (b : nat) (A : crs (BlockS QcS b)) (rparts cparts : list nat)
+  (f x res : vec (BlockS QcS b)) :
+  length rparts = length cparts -> psum rparts = nrows A -> psum cparts = ncols A ->
+  wf A = true -> length f = nrows A -> length res = nrows A ->
+  concat (dist_residual (chunks rparts f) (split A rparts cparts) (chunks cparts x) (chunks rparts res))
+  = residual f A x res /\
+  forall i, i < nrows A ->
+    vget (concat (dist_residual (chunks rparts f) (split A rparts cparts) (chunks cparts x) (chunks rparts res))) i
+    = vget f i - sumn (fun j => mget A i j * vget x j) (ncols A).
+Proof.
+  exact (C11_nc_residual_every_partition (BlockS QcS b) (BlockS_ncring QcS b QcS_ring) (BlockS_eqb QcS b QcS_eqb)
+           A rparts cparts f x res).
+Qed.
+Print Assumptions C11_nc_residual_every_partition_BlockQc.
+
+Theorem C11_nc_product_every_partition_BlockQc (b : nat) (A B : crs (BlockS QcS b)) (rpA cpA cpB : list nat) :
+  length rpA = length cpA -> length cpA = length cpB -> psum rpA = nrows A -> psum cpA = nrows B ->
+  wf A = true ->
+  let C := assemble (dist_product (split A rpA cpA) (split B cpA cpB)) in
+  ncols C = psum cpB /\
+  length (rows C) = nrows A /\
+  (forall i j, mget C i j = mget (spgemm_saad A B false) i j) /\
+  (forall i j, i < nrows A -> mget C i j = sumn (fun k => mget A i k * mget B k j) (ncols A)).
+Proof. exact (C11_nc_product_every_partition (BlockS QcS b) (BlockS_ncring QcS b QcS_ring) A B rpA cpA cpB). Qed.
+Print Assumptions C11_nc_product_every_partition_BlockQc.
+
+Theorem C11_nc_transpose_every_partition_BlockQc (b : nat) (A : crs (BlockS QcS b)) (rparts cparts : list nat) :
+  length rparts = length cparts -> psum rparts = nrows A -> psum cparts = ncols A ->
+  let T := assemble (dist_transpose (split A rparts cparts) rparts) in
+  ncols T = nrows A /\
+  forall i j, j < ncols A -> mget T j i = sadj (mget A i j).
+Proof.
+  exact (C11_nc_transpose_every_partition (BlockS QcS b) (BlockS_ncring QcS b QcS_ring)
+           (BlockS_adj_add QcS b (fun _ _ => eq_refl)) (BlockS_adj_0 QcS b QcS_ring (fun _ _ => eq_refl))
+           A rparts cparts).
+Qed.
+Print Assumptions C11_nc_transpose_every_partition_BlockQc.
+
+Theorem C11_nc_transpose_of_product_every_partition_BlockQc (b : nat) (A B : crs (BlockS QcS b))
+  (rpA cpA cpB : list nat) i j :
+  length rpA = length cpA -> length cpA = length cpB ->
+  psum rpA = nrows A -> psum cpA = nrows B -> nrows B = ncols A -> psum cpB = ncols B ->
+  wf A = true -> i < nrows A -> j < ncols B ->
+  mget (assemble (dist_transpose (split (spgemm_saad A B false) rpA cpB) rpA)) j i
+  = mget (assemble (dist_product (split (transpose B) cpB cpA) (split (transpose A) cpA rpA))) j i /\
+  mget (assemble (dist_transpose (split (spgemm_saad A B false) rpA cpB) rpA)) j i
+  = sumn (fun k => sadj (mget B k j) * sadj (mget A i k)) (ncols A).
+Proof.
+  exact (C11_nc_transpose_of_product_every_partition (BlockS QcS b) (BlockS_ncring QcS b QcS_ring)
+           (BlockS_adj_add QcS b (fun _ _ => eq_refl)) (BlockS_adj_0 QcS b QcS_ring (fun _ _ => eq_refl))
+           (BlockS_adj_mul QcS b QcS_ring (fun _ _ => eq_refl) (fun _ _ => eq_refl)) A B rpA cpA cpB i j).
+Qed.
+Print Assumptions C11_nc_transpose_of_product_every_partition_BlockQc.
+
+(* non-vacuity: 2 x 2 blocks over Q do not commute, so the operand order above is real information *)
+Example C11_nc_blocks_do_not_commute : exists x y : BlockS QcS 2, x * y <> y * x.
+Proof. exact blocks_do_not_commute. Qed.
+Print Assumptions C11_nc_blocks_do_not_commute.
+
+(* converse witness = the seeded regression C12-4: in mpi::product the section that combines A's REMOTE entries
+   with the rows of B received from the neighbour ranks computes  B_nbr.val[jb] * va  instead of  va * vb
+   (model DistBlockP.dist_product_swapped_remote: Dist.dist_product with the operands swapped exactly for the
+   entries of A whose column lies outside the rank's own column range).  On a 2-rank world with 2 block rows,
+        A = [ I  E01 ]    B = [ I    . ]     (DistBlockT.dw_A, dw_B; partition [1;1] everywhere)
+            [ .   I  ]        [ E10  I ]
+   the assembled result differs from the serial product at entry (0,0):  I + E10*E01  instead of  I + E01*E10 ... *)
+Theorem C11_nc_product_swapped_remote_operands_refuted :
+  exists (A B : crs (BlockS QcS 2)) (rpA cpA cpB : list nat) (i j : nat),
+    length rpA = length cpA /\ length cpA = length cpB /\ psum rpA = nrows A /\ psum cpA = nrows B /\
+    wf A = true /\
+    mget (assemble (dist_product_swapped_remote (split A rpA cpA) (split B cpA cpB))) i j
+    <> mget (spgemm_saad A B false) i j.
+Proof.
+  exists dw_A, dw_B, dw_p, dw_p, dw_p, 0%nat, 0%nat.
+  destruct swapped_remote_operands_refuted as [H1 [H2 [H3 [H4 H5]]]].
+  exact (conj H1 (conj H1 (conj H2 (conj H3 (conj H4 H5))))).
+Qed.
+Print Assumptions C11_nc_product_swapped_remote_operands_refuted.
+
+(* ... while in every COMMUTATIVE ring the swapped model is the same function: the regression is invisible to the
+   theorems of Section Ring and to every scalar-valued run; only the non-commutative theorems above exclude it *)
+Theorem C11_nc_product_swapped_remote_operands_commutative_noop (S : Scalar) (Srt : Sring S) (DA DB : dmat S) :
+  dist_product_swapped_remote DA DB = dist_product DA DB.
+Proof. exact (dist_product_swapped_remote_comm Srt DA DB). Qed.
+Print Assumptions C11_nc_product_swapped_remote_operands_commutative_noop.
